@@ -12,6 +12,9 @@ MAX_UNROLL = 12
 MAX_PATHS = 4000
 
 
+TRIG_AXIOM = []
+
+
 def pull_foralls(f):
     """prenex: (a -> forall x. m) and (forall x. m) become a single quantifier block (better triggers for z3)"""
     if z3.is_quantifier(f) and f.is_forall():
@@ -722,6 +725,9 @@ class Executor(Evaluator):
             st.pc.append(gvals[gname] >= 0)
         for gname in set(con.extra.get("ghost_results", {}).values()):
             gvals[gname] = fresh_int(gname)
+        for gname, gv in con.extra.get("ghost_init", {}).items():
+            if not (isinstance(gv, str) and gv == "emptylist"):
+                gvals.setdefault(gname, fresh_int(gname))  # final value of a callee ghost variable: existentially chosen by the callee
         for s_alt, res in alts:
             if s_alt is not st:
                 s_alt.pc = list(st.pc) if len(s_alt.pc) < len(st.pc) else s_alt.pc
@@ -734,6 +740,14 @@ class Executor(Evaluator):
             for label, clause, tags in con.clauses("ensures"):
                 s_alt.pc.append(zbool(truth(self.eval_spec(clause, post, {}))))
             if len(alts) > 1 and not self.prover.feasible(self.axioms + s_alt.pc):
+                import os as _os
+                if _os.environ.get("NUCSVC_DEBUG_ALT"):
+                    base = len(s_alt.pc) - len(con.clauses("ensures"))
+                    for j, (label, clause, tags) in enumerate(con.clauses("ensures")):
+                        ok = self.prover.feasible(self.axioms + s_alt.pc[:base + j + 1])
+                        print("ALT", res is None, label, ok)
+                        if not ok:
+                            break
                 continue
             out.append((s_alt, res))
         self.used_contracts.add(con.qualname)
@@ -876,6 +890,18 @@ class Executor(Evaluator):
                 self.ufuns[key] = F
             app = F(*zargs)
             return SpecArr(app, shape) if name == "ufun_arr" else app
+        if name == "trig":
+            # identity marker used as an instantiation trigger: trig(x) == x (definitional axiom, pattern trig(x))
+            x = zint(as_int(self.eval(a[0], st)))
+            if "trig" not in self.ufuns:
+                T = z3.Function("trig", INT, INT)
+                y = z3.Int("trig_x")
+                self.ufuns["trig"] = T
+                TRIG_AXIOM.append(z3.ForAll([y], T(y) == y, patterns=[T(y)]))
+            if not getattr(self, "_trig_added", False):
+                self._trig_added = True
+                self.axioms.append(TRIG_AXIOM[0])
+            return self.ufuns["trig"](x)
         if name == "rowidx":
             v = self.eval(a[0], st)
             if isinstance(v, Arr) and v.axes and v.axes[0][0] == "fix":
